@@ -7,8 +7,8 @@ class C01(Prop):
     coq_targets = ["props/C01.vo"]
     props_file = "props/C01.v"
     design_ref = "DESIGN.md §4 C01"
-    level_text = 'Coq theorems over all strings (no length bound): the modelled lexer partitions the input into non-empty tokens, the modelled parser keeps every token text in order, both are total (no panic site, fuel suffices), hence from_str_relaxed returns a tree whose text is the input and from_str succeeds exactly when the error list is empty. Tied to the code by a correspondence run (token lists, printed text, error counts, strict result, paragraph items) on every check.'
-    level_note = 'Model: src/lex.rs, src/common.rs, fn parse of src/lossless.rs.'
+    level_text = 'Coq theorems over all strings (no length bound): the modelled lexer partitions the input into non-empty tokens, the modelled parser keeps every token text in order, both are total (no panic site, fuel suffices), hence from_str_relaxed returns a tree whose text is the input and from_str succeeds exactly when the error list is empty. The lexer is also transcribed at BYTE level (every slice at a byte offset, Panic off a character boundary; arms re-read from src/lex.rs by translate/bytesites.py) and proved to return the same token list for every input (C01_lex_partition_bytes). Tied to the code by a correspondence run (token lists of both lexer models, printed text, error counts, strict result, paragraph items) on every check.'
+    level_note = 'Model: src/lex.rs (char level Deb822Lex.v and byte level ByteLex.v), src/common.rs, fn parse of src/lossless.rs.'
     rule = ("corpus (repo test literals, testdata, /verif/corpus/deb822) + every string of length <= n over the "
             "class alphabet {A - : # SP TAB LF CR U+00E9 U+0001} (n=5 quick, 6 thorough) + grammar-generated "
             "documents and their mutations; a case is non-trivial when its implementation record is distinct "
